@@ -414,8 +414,27 @@ fn generate(name: &str, text: &str) -> String {
             arms = rules.iter().map(|x| format!("pestp::Rule::r#{} => {}u8", x.name, ids[&x.name])).collect::<Vec<_>>().join(", ")).unwrap();
     }
     writeln!(o, "    v\n}}").unwrap();
+    // ---- skip type constant (C07): WHITESPACE / COMMENT inside the generated Skipped alias carry INHERITED = 0
+    let skip_check = !compile_only && (g.has_ws || g.has_comment);
+    if skip_check {
+        for v in &variants {
+            if g.has_ws {
+                writeln!(o, "impl<'i, const I: usize> crate::grel::InhOf for typed_{}::rules::WHITESPACE<'i, I> {{ const INH: usize = I; }}", v).unwrap();
+            }
+            if g.has_comment {
+                writeln!(o, "impl<'i, const I: usize> crate::grel::InhOf for typed_{}::rules::COMMENT<'i, I> {{ const INH: usize = I; }}", v).unwrap();
+            }
+        }
+    }
     // ---- harnesses
     writeln!(o, "harnesses! {{").unwrap();
+    if skip_check {
+        writeln!(o, "    fn c07_g_{g}_skiptype() [] : \"Q|corpus grammar {g}: the generated implicit-skip type (generics::Skipped) instantiates WHITESPACE/COMMENT with INHERITED = 0 (matched atomically), in every derive option variant\" {{", g = name).unwrap();
+        for v in &variants {
+            writeln!(o, "        crate::grel::skip_type_is_atomic::<typed_{}::generics::Skipped<'static>>();", v).unwrap();
+        }
+        writeln!(o, "    }}").unwrap();
+    }
     let has_stack = text.contains("PUSH") || text.contains("PEEK") || text.contains("POP") || text.contains("DROP");
     let _ = has_stack;
     for (tier, ti) in [("Q", 0usize), ("T", 1usize)] {
